@@ -236,6 +236,17 @@ def declare_fs(w):
                 setf(ex, s2, "target", p, src)
                 yield s2, NONEV
 
+    link_resolves = z3.Function("link_resolves", z3.StringSort(), z3.StringSort(), z3.BoolSort())     # (path of a symlink, its target text): the chain ends at an existing entry
+
+    def os_path_exists(ex, args, kwargs, st, sink, node):
+        # os.path.exists FOLLOWS symlinks: a dangling (or looping) link "does not exist"; os.path.lexists is the test for "something is there"
+        p = s_(args[0])
+        k = fsget(st.heap, "kind", p)
+        yield st, mk_bool(z3.If(k == K_LINK, link_resolves(p, fsget(st.heap, "target", p)), k != K_ABSENT))
+
+    def os_path_lexists(ex, args, kwargs, st, sink, node):
+        yield st, mk_bool(fsget(st.heap, "kind", s_(args[0])) != K_ABSENT)
+
     def path_join(ex, args, kwargs, st, sink, node):
         # POSIX join of a directory path not ending in '/' with relative components (entry names contain no '/': assumption on the names sent)
         cur = s_(args[0])
@@ -334,7 +345,7 @@ def declare_fs(w):
     w.externals["os.listdir"] = os_listdir
     w.externals["os.stat"] = os_stat
     w.externals.update({"os.lstat": os_lstat, "os.unlink": os_unlink, "shutil.rmtree": shutil_rmtree, "os.makedirs": os_makedirs, "os.chmod": os_chmod, "os.utime": os_utime,
-                        "os.symlink": os_symlink, "os.path.join": path_join, "builtins.open": py_open, "hashlib.md5": hashlib_md5,
+                        "os.symlink": os_symlink, "os.path.exists": os_path_exists, "os.path.lexists": os_path_lexists, "os.path.join": path_join, "builtins.open": py_open, "hashlib.md5": hashlib_md5,
                         "stat.S_ISREG": isfmt(8), "stat.S_ISDIR": isfmt(4), "stat.S_ISLNK": isfmt(10)})
 
     def bitor(ex, op, a, b, st, sink, node):
@@ -747,7 +758,10 @@ def declare_serve_rsync_body(w):
                    requires=lambda a, h: [("channel", a.channel != 0), ("inbox0-is-the-inbox", h("Channel", a.channel, "$inbox0") == inbox(h, a.channel)),
                                           ("links-are-leaves", links_apart(inbox(h, a.channel), m_dest(inbox(h, a.channel)[0]), 1))],
                    modifies=lambda a, h: [("FS", FSR, f) for f in FIELDS] + [("Channel", a.channel, f) for f in ("$inbox", "$requested", "$checksum", "$log", "$acks", "$queued", "$data_at")],
-                   cases=[Case("ok", post=sr_post), Case("connection-lost", "raise", "EOFError"), Case("cannot", "raise", "OSError"), Case("protocol", "raise", "AssertionError")],
+                   cases=[Case("ok", post=sr_post), Case("connection-lost", "raise", "EOFError"),
+                          # the file system may refuse things - but never "something is in the way of a link": what stands there (a dangling link included) was removed first
+                          Case("cannot", "raise", "OSError", post=lambda a, h, h2, e: [] if not hasattr(e, "origin") else [z3.BoolVal("os.symlink: exists" not in e.origin)]),
+                          Case("protocol", "raise", "AssertionError")],
                    props=["C17"], allocates=True))
 
     # ---- the modifiedfiles loop --------------------------------------------------------------------------------------------------------------
